@@ -499,7 +499,9 @@ func preInstantiate(ts *TermStore, hyps []*Term, goal *Term) []*Term {
 						continue
 					}
 					for _, k := range order {
-						if k.seq != p.args[0].id || done[[2]int{q.id, k.idx}] {
+						// any index term the goal uses is tried, whatever sequence it indexes there: lemmas about
+						// related sequences (a prefix kept by a call, the list before the loop) are needed at the same index
+						if done[[2]int{q.id, k.idx}] {
 							continue
 						}
 						done[[2]int{q.id, k.idx}] = true
